@@ -5,6 +5,10 @@ cd "$(dirname "$0")"
 if ! /venv/bin/python -c "import hypothesis" 2>/dev/null; then
     /venv/bin/pip install --no-index --find-links /opt/veriftools/wheels hypothesis >/dev/null
 fi
+# optional: atheris for the coverage-guided shards of the thorough tier (C01, C10, C20)
+if [ ! -d .deps/atheris ]; then
+    /venv/bin/pip install --no-index --find-links /opt/veriftools/wheels --target .deps atheris >/dev/null 2>&1 || echo "atheris not installed (thorough tier runs Hypothesis shards only)"
+fi
 /venv/bin/python - <<'PY'
 import sys
 sys.path.insert(0, "/verif")
